@@ -251,7 +251,7 @@ def check_site(d, M, mode="abs", regen=False):
             holders = [(rel, dd) for rel, dd in gen_site.walk(d2) if dd["recipes"]]
             if holders:
                 rel, dd = holders[len(holders) // 2]
-                new = dict(file="added-later.md", title="Added later", servings=2, links=[])
+                new = dict(file="added-later.md", title="Added later", servings=min(2, M), links=[])
                 dd["recipes"][0]["links"].append(("Lnew", "added-later.md", ("recipe", (rel + "/" if rel else "") + "added-later.md")))
                 dd["recipes"].append(new)
                 sub = dict(name="newer-dir", readme=None, recipes=[dict(file="inside.md", title="Inside", servings=None, links=[])], subdirs=[], assets=[])
@@ -272,10 +272,25 @@ def check_site(d, M, mode="abs", regen=False):
         shutil.rmtree(scratch, ignore_errors=True)
 
 
+def fixed_oracle_cases():
+    """boundary sites: a single serving count, with and without a recipe that states its servings; an empty root; one deep chain"""
+    r = lambda f, t, s_: dict(file=f, title=t, servings=s_, links=[])  # noqa
+    sub = lambda n, recs, subs=(): dict(name=n, readme=None, recipes=list(recs), subdirs=list(subs), assets=[])  # noqa
+    yield sub("root", [r("plain.md", "Plain", None)], [sub("mains", [r("stew.md", "Stew", None)], [sub("slow", [r("ragu.md", "Ragu", None)])]), sub("empty", [])]), 1
+    yield sub("root", [r("one.md", "One", 1)], [sub("mains", [r("stew.md", "Stew", None)])]), 1
+    yield sub("root", [], [sub("mains", [], [sub("slow", [r("ragu.md", "Ragu", 2)])])]), 2
+    yield sub("root", []), 1
+    yield sub("root", [r("plain.md", "Plain", None)]), 3
+
+
 def oracle(run):
     rng = run.rng
-    for i in range(run.budget(30, 800)):
-        d, M = gen_oracle_case(rng, url_names=(i % 3 == 0))
+    fixed = list(fixed_oracle_cases())
+    for i in range(run.budget(30, 800) + len(fixed)):
+        if i < len(fixed):
+            d, M = fixed[i]
+        else:
+            d, M = gen_oracle_case(rng, url_names=(i % 3 == 0))
         mode = gen_site.PATH_MODES[(i // 2) % 3] if i % 2 else "abs"
         regen = (i % 5 == 1)
         run.case(("oracle", gen_site.tree_sexp(d), M, repr(d)[:0]), True, kind="crawl" + ("" if mode == "abs" else "-" + mode) + ("-regen" if regen else ""))
@@ -319,7 +334,10 @@ def plain_title(src):
 
 
 def inert_site(rng):
-    d = gen_site.gen_tree(rng, 2, ["it's", "a&b", "q\"r", "x<y>", "plain"], p_readme=0.5, servings_pool=(None, 1, 2))
+    d = gen_site.gen_tree(rng, 2, ["it's", "a&b", "q\"r", "x<y>", "plain", "soup: leek", "javascript:alert(1)", "data:x", "a;b=c"], p_readme=0.5, servings_pool=(None, 1, 2))
+    # names that read as a URL scheme when they start a relative link: present in every site, as a directory and as recipe files
+    d["subdirs"].append(dict(name="mailto:cook", readme=None, assets=[], subdirs=[],
+                             recipes=[dict(file="javascript:alert(1).md", title="Plain 1", servings=2, links=[]), dict(file="http:pie.md", title="Plain 2", servings=None, links=[])]))
     k = rng.randrange(len(NASTY_TITLES))
     for rel, dd in gen_site.walk(d):
         if dd["readme"]:
@@ -360,6 +378,10 @@ def check_inert(d, M):
             for n in root.iter():
                 if n.tag in ("script", "b", "i") and n.parent is not None:
                     out.append(("C10:title-became-markup", "%s contains <%s>" % (f, n.tag)))
+            # a name is only ever a path: no generated link may read as a URL with a scheme (these sites have no authored links)
+            for tag, attr, url, _label in gen_site.parse_page(text).links:
+                if urlsplit(url).scheme:
+                    out.append(("C10:name-became-a-url-scheme", "%s: <%s %s=%r> has scheme %r" % (f, tag, attr, url, urlsplit(url).scheme)))
             # the page's <title> is "<title of the page> - <site name>", character for character (modulo HTML white space)
             from recipe_grid.static_site.recipe_directory import dirname_to_title as _d2t
             for n in root.iter():
